@@ -19,7 +19,8 @@
 From stdpp Require Import gmap list.
 From Coq Require Import NArith.
 From RopeVerif.C10 Require Import FsModel Change ChangeProofs.
-From RopeVerif.C09 Require Import Footprint FootprintProofs MainProofs.
+From RopeVerif.C09 Require Import Footprint FootprintProofs MainProofs Ignore IgnoreProofs.
+From RopeVerif.Lib Require Import Text.
 
 (* Frame: a path that is not a reported resource and not below one has the same node after the call
    as before, in the successful case and in the failing case alike ([res_fs] is the tree of either). *)
@@ -220,6 +221,30 @@ Theorem C09_link_escape_refuted :
     is_prefix root key = false /\ m' !! key <> m !! key.
 Proof. exact link_escape_refuted. Qed.
 Print Assumptions C09_link_escape_refuted.
+
+(* ---- ignore patterns (the pattern part of Project.is_ignored; tied to rope's matcher on every resource of every
+   generated world) ---- *)
+(* whatever lies below an ignored resource is ignored *)
+Theorem C09_ignored_below :
+  forall (pats : list text) (segs more : list text),
+    ignored_by pats segs = true -> ignored_by pats (segs ++ more) = true.
+Proof. exact ignored_below. Qed.
+Print Assumptions C09_ignored_below.
+
+(* the documented double-slash form reaches ANY depth: d//g matches d/m1/.../mk/f for every k >= 0 *)
+Theorem C09_ignore_gap_any_depth :
+  forall (d g s0 f : text) (mids : list text),
+    gmatch d s0 = true -> gmatch g f = true ->
+    pmatch_here [Seg d; Gap; Seg g] (s0 :: mids ++ [f]) = true.
+Proof. exact gap_any_depth. Qed.
+Print Assumptions C09_ignore_gap_any_depth.
+
+Example C09_ignore_example :
+  parse_pat w_pat = [Seg w_gen; Gap; Seg [42; 46; 112; 121]%N] /\
+  ignored_by [w_pat] [w_gen; w_g2py] = true /\ ignored_by [w_pat] [w_gen; w_deep; w_deep; w_g2py] = true /\
+  ignored_by [w_pat] [w_gen; w_readme] = false /\ ignored_by [w_pat] [w_deep; w_g2py] = false.
+Proof. exact ignore_example. Qed.
+Print Assumptions C09_ignore_example.
 
 (* ---- previews ---- *)
 (* A move whose destination is free lands, with everything below it, exactly at the announced destination
